@@ -342,7 +342,13 @@ func Mixed(tier, per int) []aa.Rule {
 	}
 	// comment lines are rules of a paragraph too (ParseRules produces one per `#` line): they take part in the kind order
 	out = append(out, &aa.Comment{Base: aa.Base{IsLineRule: true, Comment: " a note"}}, &aa.Comment{Base: aa.Base{IsLineRule: true, Comment: " another note"}})
-	// ... and so are the preamble kinds when a preamble is sorted (third hunt)
+	return out
+}
+
+// MixedWithPreamble: Mixed plus the preamble kinds (abi, alias, variable), which take part in the kind order when a
+// preamble is sorted (third hunt). Only for the order: a rule block does not hold them.
+func MixedWithPreamble(tier, per int) []aa.Rule {
+	out := Mixed(tier, per)
 	out = append(out, &aa.Abi{IsMagic: true, Path: "abi/4.0"}, &aa.Alias{Path: "/usr/", RewrittenPath: "/mnt/usr/"},
 		&aa.Variable{Name: "name", Values: []string{"foo"}, Define: true}, &aa.Variable{Name: "exec_path", Values: []string{"@{bin}/foo"}, Define: true})
 	return out
